@@ -82,6 +82,28 @@ def run(idx, rep, tier):
                     rep.refuted("rng-local-seed", construct, f"`{ast.unparse(c)}` creates an unseeded generator: results differ from call to call", detail="unseeded",
                                 locs=[idx.loc(m, c)])
                     continue
+                # a seed that may be None is no seed: `default_rng(None)` draws from OS entropy.  The seed expression is followed to the
+                # parameters it comes from; a parameter whose default is None reaches the constructor as None unless the call sits
+                # behind a test of that parameter against None
+                def none_params(e_, depth=0):
+                    if isinstance(e_, ast.Name) and depth < 4:
+                        v_ = df.resolve_value(fi.node, e_)
+                        if v_ is not e_:
+                            return none_params(v_, depth + 1)
+                        d_ = df.param_defaults(fi.node).get(e_.id)
+                        return {e_.id} if isinstance(d_, ast.Constant) and d_.value is None else set()
+                    if isinstance(e_, ast.Call) and ast.unparse(e_.func).split(".")[-1] in ("asarray", "array", "int", "abs") and e_.args:
+                        return set()  # asarray(None) / int(None) do not yield None (they yield an object array / raise)
+                    return set()
+                maybe = none_params(seed)
+                guarded = {t_.left.id for t_, pol_ in df.branch_conditions(c, fi.node)
+                           if isinstance(t_, ast.Compare) and len(t_.ops) == 1 and isinstance(t_.left, ast.Name) and isinstance(t_.comparators[0], ast.Constant)
+                           and t_.comparators[0].value is None and ((isinstance(t_.ops[0], ast.IsNot) and pol_) or (isinstance(t_.ops[0], ast.Is) and not pol_))}
+                if maybe - guarded:
+                    p_ = sorted(maybe - guarded)[0]
+                    rep.refuted("rng-local-seed", construct, f"`{ast.unparse(c)}`: the seed is the parameter `{p_}`, whose default is None -- a generator created from None is seeded "
+                                "from OS entropy, so two calls that leave the key at its default return different results", detail="none-seed", locs=[idx.loc(m, c)])
+                    continue
                 tags = KeyChain(idx, fi).classify(seed)
                 bad = sorted(t for t in tags if t.startswith(("entropy", "global-rng")))
                 unk = sorted(t for t in tags if t.startswith("unknown"))
